@@ -17,7 +17,9 @@ BUDGET_S = {"quick": 120, "thorough": 1200}
 EXHAUSTIVE = {"quick": False, "thorough": False}
 RULE = ("random discrete data frames with 2..5 columns, declared cardinalities 1..4, 1..40 rows drawn from "
         "skewed distributions so that many parent configurations (and, with state_names, some declared states) "
-        "never occur; int columns (become float states) and categorical columns; for each data frame EVERY "
+        "never occur; int columns (become float states) and categorical columns, whose dtype may carry unused "
+        "categories (explicit categories= or a row-filtered bigger frame: not states unless state_names declare "
+        "them); for each data frame EVERY "
         "(variable, parent subset) pair is a case: the five local scores are compared with the model "
         "(rel. 1e-9) for ess in {1, 2.5, 5, 10}, under a parent permutation and a row permutation, and the "
         "coded sums are compared with the closed forms of Spec.v; plus score(model) incl. structure prior on "
@@ -37,7 +39,7 @@ COLS = ["A", "B", "C", "D", "E", "F"]
 
 
 # ------------------------------------------------------------------ data generation
-def gen_data(rng, ncols, nrows, maxcard=4, declare_p=0.4, allow_unobs_states=True):
+def gen_data(rng, ncols, nrows, maxcard=4, declare_p=0.4, allow_unobs_states=True, force_cat=False):
     """-> dict(cards, rows, declared, style): rows hold state indices; column i has cards[i] declared states.
     A column without declared state_names has exactly its observed states (re-indexed)."""
     raw_cards = [min(rng.choice([1, 2, 2, 2, 3, 3, 3, 4, 4]), maxcard) for _ in range(ncols)]
@@ -74,9 +76,33 @@ def gen_data(rng, ncols, nrows, maxcard=4, declare_p=0.4, allow_unobs_states=Tru
         else:
             cards.append(c)
         declared.append(decl)
-    style = [rng.choice(["int", "cat"]) for _ in range(ncols)]
-    return {"cards": cards, "rows": rows, "declared": declared, "style": style,
+    style = ["cat" if force_cat else rng.choice(["int", "cat"]) for _ in range(ncols)]
+    # categorical dtype: "tight" = categories are exactly the observed values; "explicit" = the dtype lists
+    # extra categories that never occur; "filter" = the frame is a row-filtered view of a bigger frame, so the
+    # dtype keeps the categories of the removed rows.  Without state_names, unused categories are NOT states.
+    catmode = []
+    for i in range(ncols):
+        if style[i] != "cat":
+            catmode.append("tight")
+        elif force_cat:
+            catmode.append(rng.choice(["explicit", "filter", "explicit", "filter", "tight"]))
+        else:
+            catmode.append(rng.choice(["tight", "tight", "explicit", "filter"]))
+    return {"cards": cards, "rows": rows, "declared": declared, "style": style, "catmode": catmode,
             "snseed": rng.randint(0, 10**6)}
+
+
+EXTRA_LABELS = ["a_unused", "s1_unused", "zz_unused"]
+
+
+def unused_labels(data, i, vals):
+    """labels of column i that are categories of the dtype but never occur: for a column with declared
+    state_names only declared-but-unobserved states (the dtype must stay within state_names), otherwise
+    fresh labels sorting before / between / after the observed ones"""
+    if data["declared"][i]:
+        return ["s%d" % k for k in range(data["cards"][i]) if k not in set(vals)]
+    k = 1 + (data["snseed"] + i) % 3
+    return EXTRA_LABELS[:k] if (data["snseed"] + i) % 2 else EXTRA_LABELS[3 - k:]
 
 
 def state_label(style, k):
@@ -87,15 +113,31 @@ def build_df(data, rows=None):
     import pandas as pd
     rows = data["rows"] if rows is None else rows
     n = len(data["cards"])
+    catmode = data.get("catmode", ["tight"] * n)
+    extra = {i: unused_labels(data, i, [r[i] for r in rows]) for i in range(n)
+             if data["style"][i] == "cat" and catmode[i] != "tight"}
+    extra = {i: e for i, e in extra.items() if e}
+    filt = [i for i in extra if catmode[i] == "filter"]
+    njunk = max([len(extra[i]) for i in filt], default=0)
     cols = {}
     for i in range(n):
         vals = [r[i] for r in rows]
         if data["style"][i] == "int":
-            cols[COLS[i]] = vals
+            cols[COLS[i]] = vals + [vals[0]] * njunk
+            continue
+        labels = ["s%d" % v for v in vals]
+        cats = sorted(set(labels))
+        if i in filt:
+            # the removed rows carry the extra labels
+            junk = [extra[i][t % len(extra[i])] for t in range(njunk)]
+            cols[COLS[i]] = pd.Categorical(labels + junk, categories=sorted(set(cats + junk)))
         else:
-            cats = ["s%d" % k for k in sorted(set(vals))]
-            cols[COLS[i]] = pd.Categorical(["s%d" % v for v in vals], categories=cats)
+            if i in extra:
+                cats = sorted(set(cats + extra[i]))
+            cols[COLS[i]] = pd.Categorical(labels + [labels[0]] * njunk, categories=cats)
     df = pd.DataFrame(cols, columns=COLS[:n])
+    if njunk:
+        df = df[[True] * len(rows) + [False] * njunk].reset_index(drop=True)
     sn = {}
     rng = random.Random(data["snseed"])
     for i in range(n):
@@ -175,6 +217,17 @@ def cases(tier, seed):
         ps = rng.sample(others, rng.randint(1, len(others)))
         out.append({"kind": "local", "data": data, "x": x, "ps": ps, "ess": rng.choice(ESS),
                     "pseed": rng.randint(0, 10**6)})
+    # categorical dtype with unused categories (explicit categories= and row-filtered frames), with and without
+    # state_names: without them only the observed values are states, with them every declared state counts
+    for f in range(60 if quick else 400):
+        ncols = rng.choice([2, 3, 3, 4])
+        data = gen_data(rng, ncols, rng.choice([2, 3, 5, 8, 15]), declare_p=rng.choice([0.0, 0.0, 0.5, 1.0]),
+                        force_cat=True)
+        x = rng.randrange(ncols)
+        others = [v for v in range(ncols) if v != x]
+        ps = rng.sample(others, rng.randint(0, len(others)))
+        out.append({"kind": "local", "data": data, "x": x, "ps": ps, "ess": rng.choice(ESS),
+                    "pseed": rng.randint(0, 10**6)})
     # score(model), priors, structure_score wrapper
     for f in range(40 if quick else 400):
         ncols = rng.choice([2, 3, 4, 5, 6])
@@ -249,6 +302,17 @@ def shrink(case):
 
 
 # ------------------------------------------------------------------ local scores
+def cat_tags(data, df, cols):
+    """labels for categorical columns whose dtype carries categories that never occur"""
+    out = set()
+    for i in cols:
+        c = df[COLS[i]]
+        if data["style"][i] == "cat" and len(c.cat.categories) > c.nunique():
+            out.add("unused-categories:%s:%s" % (data.get("catmode", ["tight"] * len(data["cards"]))[i],
+                                                  "state_names" if data["declared"][i] else "no-state_names"))
+    return sorted(out)
+
+
 def data_stats(data, x, ps):
     rows = data["rows"]
     cards = data["cards"]
@@ -279,6 +343,7 @@ def run_local(case, drv):
             "rows=%d" % len(data["rows"])]
     if r >= 3 and qobs < q:
         tags.append("r>=3&unobserved-config")
+    tags += cat_tags(data, df, [x] + ps)
     key = common.canon_key(["local", data["cards"], sorted(map(tuple, data["rows"])), x, sorted(ps), ess,
                             data["declared"]])
     for i, k in enumerate(SCORES):
